@@ -64,14 +64,47 @@ def fam_kw():
         return ("y", i, (i + st, st)) if i < N else ("stop",)
     return ("kw", src, 1, step, True)
 
-FAMILIES = [fam_counter(), fam_fib(), fam_local(), fam_outer(), fam_norecur(), fam_infinite(), fam_twoyields(), fam_kw()]
+def fam_rebind():
+    src = "<{|i| i := i * 2; yield i if i < 40; recur(i + 1)}>"
+    def step(s):
+        i, = s
+        i2 = i * 2
+        return ("y", i2, (i2 + 1,)) if i2 < 40 else ("stop",)
+    return ("rebind", src, 1, step, True)
+
+def fam_rebind_norecur():
+    src = "<{|n| n := n + 1; yield n if n < 5}>"
+    def step(s):
+        n, = s
+        return ("y", n + 1, (n + 1,)) if n + 1 < 5 else ("stop2", (n + 1,))
+    return ("rebind_norecur", src, 1, step, True)
+
+def fam_nilyield():
+    src = "<{|i| yield (i if i % 2 == 1) if i < 6; yield 777; recur(i + 1)}>"
+    def step(s):
+        i, = s
+        return ("y", (i if i % 2 == 1 else None), (i + 1,)) if i < 6 else ("stop",)
+    return ("nilyield", src, 1, step, True)
+
+def fam_trailing():
+    src = "<{|a, b| yield (a if a > 1) if a < 9; recur(b, a + b); b}>"
+    def step(s):
+        a, b = s
+        return ("y", (a if a > 1 else None), (b, a + b)) if a < 9 else ("stop",)
+    return ("trailing", src, 2, step, True)
+
+FAMILIES = [fam_rebind(), fam_rebind_norecur(), fam_nilyield(), fam_trailing(), fam_counter(), fam_fib(), fam_local(), fam_outer(), fam_norecur(), fam_infinite(), fam_twoyields(), fam_kw()]
+
+
+def show(x):
+    return "nil" if x is None else str(x)
 
 
 def run_all(step, s):
     out = []
     for _ in range(200):
         r = step(s)
-        if r[0] == "stop":
+        if r[0] in ("stop", "stop2"):
             return out
         out.append(r[1])
         s = r[2]
@@ -115,18 +148,21 @@ def gen_history(rng, fam, nops):
                 r = step(iters[v])
                 if r[0] == "stop":
                     exp.append("[nil, [StopIterErr: iter stopped]]")
+                elif r[0] == "stop2":
+                    exp.append("[nil, [StopIterErr: iter stopped]]")
+                    iters[v] = r[1]
                 else:
-                    exp.append("[%d, nil]" % r[1])
+                    exp.append("[%s, nil]" % show(r[1]))
                     iters[v] = r[2]
         elif op == "A" and finite:
             lines.append("%s.A.p" % v)
-            exp.append("[" + ", ".join(str(x) for x in run_all(step, iters[v])) + "]")
+            exp.append("[" + ", ".join(show(x) for x in run_all(step, iters[v]) if x is not None) + "]")
         elif op == "chain" and finite:
-            lines.append("%s@{|x| x + 1000}.p" % v)
-            exp.append("[" + ", ".join(str(x + 1000) for x in run_all(step, iters[v])) + "]")
+            lines.append("%s=@{|x| [x]}.p" % v)
+            exp.append("[" + ", ".join("[%s]" % show(x) for x in run_all(step, iters[v])) + "]")
         elif op == "reduce" and finite:
             lines.append("%s$(0)+.p" % v)
-            exp.append(str(sum(run_all(step, iters[v]))))
+            exp.append(str(sum(x for x in run_all(step, iters[v]) if x is not None)))
         elif op == "copy" and len(iters) < 5:
             cnt += 1
             c = "it%d" % cnt
